@@ -80,7 +80,17 @@ EdgeR(j, d, k, rv, x1) == Forge4("edge-valid", MulN(d, G), BSubMod(rv, x1, NN), 
 EdgeCases(j) == IF j > 2 THEN <<>> ELSE
    << EdgeS(j, Dof(j), Kof(j), BSub(NN, <<1>>), BMod(MulN(Kof(j), G)[1], NN)), EdgeS(j, Dof(j), Kof(j), <<1>>, BMod(MulN(Kof(j), G)[1], NN)),
       EdgeR(j, Dof(j), Kof(j), BSub(NN, <<1>>), BMod(MulN(Kof(j), G)[1], NN)), EdgeR(j, Dof(j), Kof(j), <<1>>, BMod(MulN(Kof(j), G)[1], NN)) >>
+\* the public keys G (d = 1) and -G (no private key in range gives it, but it is a valid curve point): for any nonce k, with R = e + x([k]G), the pair
+\* (r, s) = (R, (k - R)/2) is a VALID signature under G -- and must be rejected under -G, where [s]G + [t](-G) = [-R]G.  A multiplication that
+\* recognises the generator by its x coordinate alone computes [t]G for both.  Also e >= n (a digest is any 256-bit string; the group order is below 2^256).
+GenKey3(j, pt, e, rr, ss) == Forge4(IF pt = G THEN "gen-key" ELSE "neg-gen-key", pt, e, rr, ss, VerifyRS(pt, e, rr, ss))
+GenKey2(j, e, k, rr) == << GenKey3(j, G, e, rr, BMulMod(BSubMod(k, rr, NN), InvN(<<2>>), NN)), GenKey3(j, C!Neg(G), e, rr, BMulMod(BSubMod(k, rr, NN), InvN(<<2>>), NN)) >>
+GenKey(j) == IF j > 2 THEN <<>> ELSE GenKey2(j, BMod(BFromBE(Seed(j, 17)), NN), Kof(j), BAddMod(BMod(BFromBE(Seed(j, 17)), NN), MulN(Kof(j), G)[1], NN))
+BigEs == << NN, BAdd(NN, <<1>>), BSub(BFromBE(<<1>> \o [q \in 1..32 |-> 0]), <<1>>), BSub(NN, <<1>>) >>
+BigE3(j, d, pt, e, rr) == Forge4("big-e", pt, e, rr, SignS(d, Kof(j), rr), VerifyRS(pt, e, rr, SignS(d, Kof(j), rr)))
+BigE2(j, d, e) == BigE3(j, d, MulN(d, G), e, BAddMod(BMod(e, NN), MulN(Kof(j), G)[1], NN))
+BigE(j) == IF j > 1 THEN <<>> ELSE [q \in 1..Len(BigEs) |-> BigE2(j, Dof(j), BigEs[q])]
 Init == pidx = 0 /\ pout = <<>>
-Next == pidx < NK /\ pidx' = pidx + 1 /\ pout' = <<Honest(pidx + 1)>> \o SmallS(pidx + 1) \o SmallR(pidx + 1) \o TZero(pidx + 1) \o InfCase(pidx + 1) \o RetryCases(pidx + 1) \o NearMiss(pidx + 1) \o ZeroCases(pidx + 1) \o SparseT(pidx + 1) \o EdgeCases(pidx + 1)
+Next == pidx < NK /\ pidx' = pidx + 1 /\ pout' = <<Honest(pidx + 1)>> \o SmallS(pidx + 1) \o SmallR(pidx + 1) \o TZero(pidx + 1) \o InfCase(pidx + 1) \o RetryCases(pidx + 1) \o NearMiss(pidx + 1) \o ZeroCases(pidx + 1) \o SparseT(pidx + 1) \o EdgeCases(pidx + 1) \o GenKey(pidx + 1) \o BigE(pidx + 1)
 Emit == \A j \in 1..Len(pout) : PrintT(<<"PLAN", ToJson(pout[j])>>)
 =============================================================================
